@@ -5,6 +5,7 @@ CONSTANTS
   ArgSets <- ArgSetsQuick
   HdrPorts <- Ports16
   HdrChans <- Chans4
+  PlatPackets <- NoPlat
   Links <- LinksNow
   Cap = 1
   Chained = FALSE
